@@ -27,7 +27,8 @@ Next ==
                One(e.pkg = r.pkg, l, "C13", <<"package-level values (generator, identity, curve parameters, labels) changed during", e.op>>, sig("package")) \o
                One(~Has(e, "tables") \/ e.tables = r.tables, l, "C13", <<"the precomputed MSM tables changed before", e.op>>, sig("tables")) \o
                One(~Has(e, "probe") \/ e.probe = r.probe, l, "C13", <<"the probe call returned different outputs after this history", e.op, e.k>>, sig("probe")) \o
-               One(e.inputs_unchanged, l, "C13", <<"the call modified caller-supplied inputs", e.op>>, sig("inputs")))
+               One(e.inputs_unchanged, l, "C13", <<"the call modified caller-supplied inputs", e.op>>, sig("inputs")) \o
+               One(~Has(e, "after_ok") \/ e.after_ok, l, "C13", "an honest verification fails right after failing calls: they left something behind", sig("after-failing")))
          /\ cnt' = Bump(cnt, e.op)
   /\ l' = l + 1
 Spec == Init /\ [][Next]_vars
